@@ -181,29 +181,36 @@ def token_regions(cssutils, text, tk=None, encoding='utf-8', ident_form='either'
         if typ in ('COMMENT', 'IDENT', 'FUNCTION', 'HASH', 'DIMENSION') and depth > 0 and '\n' in val:
             # written verbatim, then every line of the enclosing block is indented
             regs.add('C03-linebreak-indented')
-        if typ in ('IDENT', 'HASH', 'DIMENSION', 'ATKEYWORD') and val != val.strip():
-            # an escaped space at the end, or non-ASCII white space (U+00A0, U+2028 …) at either end
-            regs.add('C03-ident-edge-whitespace')
-        if typ in ('COMMENT', 'IDENT', 'FUNCTION', 'HASH', 'DIMENSION', 'STRING', 'URI', 'ATKEYWORD') \
+        if typ in ('IDENT', 'FUNCTION', 'HASH', 'DIMENSION', 'STRING', 'URI', 'ATKEYWORD') \
                 and bs_before_unencodable(val, encoding):
             regs.add('C03-backslash-before-unencodable')
+        if typ in ('IDENT', 'HASH', 'DIMENSION', 'ATKEYWORD') and \
+                (val.strip() == '' or (val.endswith(' ') and not val.endswith('\\ '))):
+            # Out.append / _remove_last_if_S take an item that consists of white space (non-ASCII white space such as
+            # U+2028 is a legal identifier) or ends in an unescaped space (the terminator of an escape above U+10FFFF,
+            # which is kept as written) for a separator
+            regs.add('C03-ident-edge-whitespace')
+        if typ == 'COMMENT' and not all(encodable(ch, encoding) for ch in val):
+            # comments are kept verbatim by the tokenizer, but the escapecss error handler still writes an unencodable
+            # character as a hex escape
+            regs.add('C03-comment-unencodable')
         if typ == 'STRING':
             cls = C.str_class(helper.stringvalue(val))
             if cls and raw is not None and len(raw) >= 2 and raw[0] in '"\'':
                 # the parser can store such a value only from these two source forms (checked exhaustively for short
                 # token texts by corr_image); anything else is a new defect and is not attributed
                 body = raw[1:-1] if raw[-1] == raw[0] else raw[1:]
-                if not (C.region_clean_after_unescape(body) or C.region_escaped_dquote(body, raw[0])):
+                if not (cls == 'dq' and C.region_escaped_dquote(body, raw[0])):
                     cls = None
                     regs.add('!unexplained-unsafe-string')
             if cls:
-                regs.add(kf_for_class(cls, 'STRING'))
+                regs |= {x for x in [kf_for_class(cls, 'STRING')] if x}
         elif typ == 'URI':
             v = helper.urivalue(val)
             # @namespace writes its URI with helper.string whatever the source form was
             cls = C.str_class(v) if at == 'NAMESPACE_SYM' else C.uri_class(v)
             if cls:
-                regs.add(kf_for_class(cls, 'URI'))
+                regs |= {x for x in [kf_for_class(cls, 'URI')] if x}
         elif typ in ('IDENT', 'FUNCTION', 'HASH', 'UNICODE-RANGE', 'DIMENSION', 'ATKEYWORD'):
             verb, norm = ident_forms_ok(tk, typ, val)
             if typ in ('DIMENSION', 'ATKEYWORD', 'FUNCTION'):
@@ -218,9 +225,6 @@ def token_regions(cssutils, text, tk=None, encoding='utf-8', ident_form='either'
                 bad = not (verb and norm)
             if bad:
                 regs.add('C03-ident-not-reescaped')
-        elif typ == 'COMMENT':
-            if not relex_same(tk, typ, val):
-                regs.add('C03-comment-unescaped')
     return regs
 
 
@@ -241,15 +245,11 @@ def kf_for_class(cls, token='STRING'):
     """known-finding id for a stored value of unsafe class `cls` held by a STRING / URI token or given to a setter"""
     if cls == 'dq':
         return 'C03-escaped-dquote'
-    if cls == 'ctrl':
-        return 'C03-url-control-char'
     if token == 'setter':
         return 'C03-raw-backslash-setter'
-    if token == 'URI' and cls == 'bsnl':
-        return 'C03-uri-line-continuation'
     if token == 'URI' and cls == 'trail':
         return 'C03-uri-trailing-backslash'
-    return 'C03-string-backslash-sequence'
+    return None    # nothing the parser stores is in these classes any more: not attributed
 
 
 # ------------------------------------------------------------------------------------------------
